@@ -27,6 +27,14 @@ CHECKS = {
             "branch is decoded and its effective target recomputed, every rejected one must fail with branch-out-of-bounds/odd-branch on the "
             "branch's own line. Relative operands are sampled (positions, preceding extension words, target shapes, wrap-around bases).",
             "Trusts the handbook rule target = PC after fetch + displacement.", "3 C04"),
+    "C05": ("exploration", "reference-evaluator monitor on generated expression trees rendered with minimal brackets; outcome classifier for the rejection rules",
+            "Random trees to depth 6 over every operator, literal spelling and bracket style are assembled through .dword/.word and the emitted "
+            "value compared with unbounded-integer reference arithmetic; the four rejection rules are driven explicitly and by generated cases.",
+            "The precedence table and literal rules in vlib/apm.py come from the statement; unary operators are only written where the assembler's grammar accepts them.", "3 C05"),
+    "C06": ("exploration", "reference-bytes monitor for data directives + accept/reject outcome classifier, boundary values exhaustive",
+            "All boundary classes (+-(2^n-1), +-2^n, parity, .align 1-64 x 64 addresses, counts 0/1/65535/65536/-1, <n> 0..256) are enumerated; "
+            "random programs add volume over five charsets with strings inside and outside each repertoire and every escape form.",
+            "Python's codecs are the reference for utf-8, koi8-r, latin-1, cp866; the bk table is compared as in C14.", "3 C06"),
     "C08": ("exploration", "outcome classifier under a sys.monitoring logical clock over grammar-directed generation, token/character mutation and corpus splicing",
             "Every input is assembled by the real parser+compiler under one of the real report handlers inside a worker with a deterministic "
             "logical step budget; the outcome is classified (ok / fail with errors / fail silently / internal exception / non-termination) and a "
